@@ -72,6 +72,24 @@ def closure_flow(ix, outer_site, name):
     fl.canon = outer.canon
     fl.ix, fl.known = outer.ix, outer.known      # helpers new to the reviewed tree are followed, as in mkflow
     fl.run()
+    # a callable that only hands back `self.<generator method>(args)`: what is iterated is that generator with its
+    # parameters bound to the arguments (generators are not followed as ordinary helpers)
+    body = [st for st in f.body() if not (isinstance(st, ast.Expr) and isinstance(st.value, ast.Constant))]
+    of = ix.func(outer_site)
+    if len(body) == 1 and isinstance(body[0], ast.Return) and isinstance(body[0].value, ast.Call) and of.cls is not None:
+        c_ = body[0].value
+        d_ = unparse(c_.func)
+        if d_.startswith('self.') and d_.count('.') == 1 and not c_.keywords and \
+                not any(isinstance(a_, ast.Starred) for a_ in c_.args):
+            g = ix.lookup_method(of.cls, d_[5:])
+            if g is not None and any(isinstance(n_, (ast.Yield, ast.YieldFrom)) for n_ in ast.walk(g.node)) and \
+                    (outer.known is None or g.site not in outer.known) and len(c_.args) <= len(g.params()) - 1:
+                env2 = dict(zip(g.params()[1:], [fl.conv.expr(a_) for a_ in c_.args]))
+                fl2 = Flow(g, Conv(outer.tab, env2, outer.canon))
+                fl2.canon = outer.canon
+                fl2.ix, fl2.known = outer.ix, outer.known
+                fl2.run()
+                f, fl = g, fl2
     if getattr(fl, 'unfollowed', None):
         from sa.helpers import UNFOLLOWED
         UNFOLLOWED.setdefault(f.site, set()).update(fl.unfollowed)
@@ -384,7 +402,9 @@ def update_model(ix, R):
                     elif [g.node for g in setcalls[0].guards] != [g.node for g in e.guards]:
                         why.append('the setter runs under %s' % [g.text() for g in setcalls[0].guards])
                     others = [x for x in fl.of('call') if x.loops and x is not e and x not in setcalls and
-                              x.name not in LOGGING and x.name != 'format']
+                              x.name not in LOGGING and x.name != 'format' and
+                              not (x.name == '_make' and x.fn and getattr(fl.tab, 'records', None) is not None and
+                                   fl.tab.records(x.fn[:-6]) is not None)]    # building a record view of the row writes nothing
                     if others:
                         why.append('other calls in the loop: %s' % [unparse(x.node)[:40] for x in others])
         lenchk = spec(fl, 'len(p) != len(self.fitting_parameters)', pe)
